@@ -192,7 +192,7 @@ Definition parse_fbd_tokens (toks : list token) : outcome2 :=
 Definition parse_fbd_text (t : text) : outcome2 :=
   let '(toks, errs) := tokenize_program t in
   match errs with
-  | [] => parse_fbd_tokens toks
+  | [] => parse_fbd_tokens (map norm_tok toks)      (* positions play no role in the grammar *)
   | _ => O2Rejected
   end.
 
@@ -355,20 +355,20 @@ Definition parse_lib2_tokens (toks : list token) : outcome4 :=
 Definition parse_lib2_text (t : text) : outcome4 :=
   let '(toks, errs) := tokenize_program t in
   match errs with
-  | [] => parse_lib2_tokens toks
+  | [] => parse_lib2_tokens (map norm_tok toks)      (* positions play no role in the grammar *)
   | _ => O4Rejected
   end.
 
 Definition parse_lib_text (t : text) : outcome3 :=
   let '(toks, errs) := tokenize_program t in
   match errs with
-  | [] => parse_lib_tokens toks
+  | [] => parse_lib_tokens (map norm_tok toks)      (* positions play no role in the grammar *)
   | _ => O3Rejected
   end.
 
 Definition parse_fb_text (t : text) : outcome :=
   let '(toks, errs) := tokenize_program t in
   match errs with
-  | [] => parse_fb_tokens toks
+  | [] => parse_fb_tokens (map norm_tok toks)      (* positions play no role in the grammar *)
   | _ => ORejected
   end.
